@@ -54,6 +54,35 @@ def conjuncts(e):
     return [e]
 
 
+def disjuncts(e):
+    """expressions whose disjunction is the test: `a or b`, `not (a and b)`, `not lo <= x < hi`, and element-wise: `np.any(a | b)`,
+    `np.any(a) or np.any(b)`, `(a | b).any()` all give the same list of element conditions (any-wrappers are dropped)"""
+    out = []
+    for c in conjuncts(negate(copy.deepcopy(e))):
+        d = negate(c)
+        # unwrap any(): np.any(X) / X.any()
+        inner = None
+        if isinstance(d, ast.Call) and not d.keywords:
+            if isinstance(d.func, ast.Attribute) and d.func.attr == "any" and not d.args:
+                inner = d.func.value
+            elif ast.unparse(d.func) in ("np.any", "numpy.any", "any") and len(d.args) == 1:
+                inner = d.args[0]
+        if inner is not None:
+            parts = []
+
+            def split(x):
+                if isinstance(x, ast.BinOp) and isinstance(x.op, ast.BitOr):
+                    split(x.left); split(x.right)
+                else:
+                    parts.append(x)
+            split(inner)
+            for p_ in parts:
+                out.extend(disjuncts(p_) if isinstance(p_, (ast.BoolOp, ast.UnaryOp)) or (isinstance(p_, ast.Compare) and len(p_.ops) > 1) else [p_])
+        else:
+            out.append(d)
+    return out
+
+
 def _leaves_block(block):
     """does the block always leave the enclosing flow (continue/break/return/raise as its last statement)"""
     return bool(block) and isinstance(block[-1], (ast.Continue, ast.Break, ast.Return, ast.Raise))
@@ -94,6 +123,34 @@ def _mentions(fact, names, stored):
     return False
 
 
+def _range_facts(loop):
+    """`for v in range(lo, hi)` (step 1): lo <= v < hi inside the body; max(..) as lower and min(..) as upper bound give one
+    fact per argument (`range(max(a, 0), min(b, n))`: v >= a, v >= 0, v < b, v < n)"""
+    it = loop.iter
+    if not (isinstance(loop.target, ast.Name) and isinstance(it, ast.Call) and isinstance(it.func, ast.Name) and it.func.id == "range"
+            and not it.keywords and 1 <= len(it.args) <= 3):
+        return []
+    if len(it.args) == 3 and not (isinstance(it.args[2], ast.Constant) and it.args[2].value == 1):
+        return []
+    v = loop.target.id
+    lo = it.args[0] if len(it.args) >= 2 else ast.Constant(0)
+    hi = it.args[1] if len(it.args) >= 2 else it.args[0]
+
+    def parts(e, fname):
+        if isinstance(e, ast.Call) and isinstance(e.func, ast.Name) and e.func.id == fname and not e.keywords and len(e.args) >= 2:
+            out = []
+            for a in e.args:
+                out.extend(parts(a, fname))
+            return out
+        return [e]
+    out = []
+    for b in parts(lo, "max"):
+        out.append(ast.Compare(left=ast.Name(id=v, ctx=ast.Load()), ops=[ast.GtE()], comparators=[copy.deepcopy(b)]))
+    for b in parts(hi, "min"):
+        out.append(ast.Compare(left=ast.Name(id=v, ctx=ast.Load()), ops=[ast.Lt()], comparators=[copy.deepcopy(b)]))
+    return out
+
+
 def facts_at(func, node):
     """set of canonical facts holding at `node` (an AST node inside func).  A fact is dropped when one of its names is
     rebound (or its object stored into) between the test and the node, or anywhere in a loop entered after the test."""
@@ -127,6 +184,8 @@ def facts_at(func, node):
                     return
                 if isinstance(st, (ast.For, ast.While, ast.AsyncFor)):
                     kill([st])      # a later iteration sees what any part of the loop rebinds
+                    if isinstance(st, ast.For) and any(contains(b) for b in st.body):
+                        facts.extend(_range_facts(st))
                 elif isinstance(st, (ast.With, ast.AsyncWith)):
                     kill([ast.Expr(value=i.optional_vars) for i in st.items if i.optional_vars is not None])
                 for fld in ("body", "orelse", "finalbody"):
